@@ -15,7 +15,7 @@ pub const THR: [f64; 7] = [0.0, 0.05, 0.3, 0.5, 0.7, 0.95, 1.0];
 
 pub fn run(tier: Tier) -> i32 {
     let rep = Report::new("C11", tier, "model_checking");
-    rep.set_rule("SCOPE: F0-stream thresholds {0,.05,.3,.5,.7,.95,1} and up to three thresholds exactly equal to voicing weights of the utterance x (default + every single deviation of the other streams' thresholds {0,1} and of every stream's GV weight {0,2}, and a pitch shift alone or with another stream's threshold) x voices (V0, P1..P3, generated with voicing weights straddling the lattice) x utterances; trajectories via hook 1; oracle: frame voiced iff msd(state(frame)) > threshold[1] with msd from Models::model_stream(1), voiced sets nested along the thresholds, spectrum/low-pass trajectories bit-identical across F0-threshold and F0-GV-weight values, F0 trajectory bit-identical across other streams' settings, unvoiced frames rendered as the reference noise and voiced frames as pulse trains on zero-spectrum voices (one of them with log-F0 leaves at 15 Hz); distinct = (voice, utterance, other deviation, threshold); non-trivial = utterance has both voiced and unvoiced states at some threshold");
+    rep.set_rule("SCOPE: F0-stream thresholds {-0,0,.05,.3,.5,.7,.95,1} and up to three thresholds exactly equal to voicing weights of the utterance x (default + every single deviation of the other streams' thresholds {0,1} and of every stream's GV weight {0,2}, and a pitch shift alone or with another stream's threshold) x voices (V0, P1..P3, generated with voicing weights straddling the lattice, one with weights exactly 0 or 1) x utterances; trajectories via hook 1; oracle: frame voiced iff msd(state(frame)) > threshold[1] with msd from Models::model_stream(1), voiced sets nested along the thresholds, spectrum/low-pass trajectories bit-identical across F0-threshold and F0-GV-weight values, F0 trajectory bit-identical across other streams' settings, unvoiced frames rendered as the reference noise and voiced frames as pulse trains on zero-spectrum voices (one of them with log-F0 leaves at 15 Hz); distinct = (voice, utterance, other deviation, threshold); non-trivial = utterance has both voiced and unvoiced states at some threshold");
     rep.assume("threshold lattice only; state(frame) derived from DurationEstimator::create through the public API");
     let corpus = labels::corpus();
     let mut utts: Vec<Vec<String>> = vec![vec![corpus[41].clone()], corpus[40..43].to_vec(), corpus[0..3].to_vec()];
@@ -33,6 +33,18 @@ pub fn run(tier: Tier) -> i32 {
         GenCfg { nstate: 7, gv: true, stage: 2, order: 5, ..GenCfg::default() },
     ] {
         voices.push((cfg.describe(), engine_from_bytes(&cfg.bytes()).expect("generated voice"), cfg.ns, cfg.nstate));
+    }
+    // a voice whose voicing weights are exactly 0 (where the generated weight is below one half) or exactly 1
+    {
+        let cfg = GenCfg { nstate: 3, ..GenCfg::default() };
+        let mut spec = cfg.spec();
+        for (_, _, pdfs) in spec.streams[1].model.trees.iter_mut() {
+            for p in pdfs.iter_mut() {
+                let w = p.last_mut().unwrap();
+                *w = if *w < 0.5 { 0.0 } else { 1.0 };
+            }
+        }
+        voices.push((format!("{} with voicing weights exactly 0 or 1", cfg.describe()), engine_from_bytes(&crate::gen::voice::write(&spec)).expect("generated voice"), cfg.ns, cfg.nstate));
     }
     let nontriv = AtomicU64::new(0);
     let flips = AtomicU64::new(0);
@@ -101,6 +113,8 @@ pub fn run(tier: Tier) -> i32 {
             }
             ths.sort_by(|a, b| a.partial_cmp(b).unwrap());
             ths.dedup();
+            // negative zero is a legal threshold (numerically 0): a weight of +0 does not exceed it
+            ths.insert(0, -0.0);
         }
         for &th in &ths {
             let mut e = eb.clone();
